@@ -38,21 +38,21 @@ func values(typ string) []interface{} {
 	case "string":
 		return []interface{}{"", "mock-a", "mock-b"}
 	case "[]int":
-		return []interface{}{[]int{9}, []int{}, []int{7, 8}, []int(nil)}
+		return []interface{}{[]int{9}, []int{}, []int{7, 8}, []int(nil), []int{1, 2, 3} /* deep-equal to the original, another object */}
 	case "map[string]int":
-		return []interface{}{map[string]int{"m": 1}, map[string]int{}, map[string]int(nil)}
+		return []interface{}{map[string]int{"m": 1}, map[string]int{}, map[string]int(nil), map[string]int{"o": 1} /* deep-equal to the original */}
 	case "S":
-		return []interface{}{vars.S{A: 5}, vars.S{}, vars.S{A: 6, B: "x", P: sp1}}
+		return []interface{}{vars.S{A: 5}, vars.S{}, vars.S{A: 6, B: "x", P: sp1}, vars.S{A: 1, B: "o", P: &vars.S{A: 2}} /* deep-equal, other inner pointer */}
 	case "[3]int":
 		return []interface{}{[3]int{}, [3]int{9, 9, 9}}
 	case "*S":
-		return []interface{}{sp1, sp2, (*vars.S)(nil)}
+		return []interface{}{sp1, sp2, (*vars.S)(nil), &vars.S{A: 3} /* deep-equal pointee, another object */}
 	case "func() int":
 		return []interface{}{f1, f2}
 	case "chan int":
 		return []interface{}{ch1, ch2}
 	case "interface{}":
-		return []interface{}{5, "s", vars.S{A: 1}, sp1}
+		return []interface{}{5, "s", vars.S{A: 1}, sp1, string([]byte("boxed")) /* equal string, other backing array */}
 	case "error":
 		return []interface{}{e1, e2}
 	case "[40]byte":
